@@ -98,7 +98,7 @@ def download_scenario(rng, plens, seed, outgoing):
 class C10(HndBase):
     id = "C10"
     proof_target = "Props/C10.vo"
-    theorems = ["C10_tiling", "C10_tiling_sum", "C10_assignment", "C10_next", "C10_assignment_invariant", "C10_answer"]
+    theorems = ["C10_tiling", "C10_tiling_sum", "C10_tiling_unique", "C10_assignment", "C10_next", "C10_assignment_invariant", "C10_answer"]
     coq_header = ("From Rdest Require Import Base Consts Wire Manager Handler Corr.Hnd.\nOpen Scope N_scope.\n"
                   "Definition codes := codes10.\n")
     rule = ("download histories on the real PeerHandler (in-memory pipe, harness as remote peer and manager): piece lengths "
